@@ -51,6 +51,7 @@ type c06code struct {
 	expLo   time.Duration // earliest instant the code can expire (create invoke + ttl)
 	expHi   time.Duration // latest instant the code can expire (create return + ttl)
 	created bool
+	node    int // node through which the code was generated
 }
 
 type c06call struct {
@@ -315,6 +316,12 @@ func (r *c06run) run(c *c06call) {
 		c.ret = w.Stamp()
 		c.tRet = w.Now()
 		c.err = err
+	case "lookup":
+		// a read-only query of the code through this node (detail view); it must not change what later calls may do
+		_, err := n.svc.GetConnectionCode(code.code)
+		c.ret = w.Stamp()
+		c.tRet = w.Now()
+		c.err = err
 	}
 	_, c.wAfter = n.st.Ops()
 	c.oAfter = n.opCnt
@@ -346,7 +353,7 @@ func (r *c06run) failClass(f *c06call) string {
 		}
 	}
 	for _, o := range r.calls {
-		if o != f && o.code == f.code && c06overlap(o, f) {
+		if o != f && o.kind != "lookup" && o.code == f.code && c06overlap(o, f) {
 			return "overlapped"
 		}
 	}
@@ -387,9 +394,9 @@ func init() {
 		ID:    "C06",
 		Level: "exploration",
 		Rule: "each run draws a backend (real memory | real redis on miniredis), 1-3 nodes (own service stack each, one shared store), optional stats counter, a per-client mapping quota in {50,1,0}, 1-2 codes " +
-			"(activation TTL 90s or 10min, own unique target address) created fault-free, then 2-4 activation calls (client from a pool of three or the code's own target client, node, unique listen address, 1/8 malformed, start delay in {0,7s,31s,95s,11min}) " +
-			"and 0-1 revoke call, all as concurrent tasks interleaved at statement/storage-operation granularity; one fault mode per run: none | the k-th storage write of one node fails (k in 1..16) | that node crashes (is fenced) at its k-th write and a fresh node retries every code afterwards | the k-th storage operation of one node stalls 47s/101s/11min (lets expiry or later calls land inside an activation). " +
-			"The fault position is sampled, not piloted. Non-trivial: two calls on one code overlapped (invoke/return stamps interleave), or a fault fired inside a call, or an activation was attempted on a code that was already used, revoked or expired. Distinct = distinct schedule hashes among those.",
+			"(activation TTL 90s or 10min, own unique target address) created fault-free through a drawn node, then 2-4 activation calls (client from a pool of three - so the same client often calls twice - or the code's own target client, drawn node, unique listen address, 1/8 malformed, start delay in {0,0.4s,1.7s,7s,31s,95s,11min}: simultaneous, a few hundred ms / seconds apart, and beyond the TTLs), " +
+			"0-1 revoke call and 0-2 read-only lookups of a code through a drawn node, all as concurrent tasks interleaved at statement/storage-operation granularity; one fault mode per run: none | the k-th storage write of one node fails (k in 1..16) | that node crashes (is fenced) at its k-th write and a fresh node retries every code afterwards | the k-th storage operation of one node stalls 47s/101s/11min (lets expiry or later calls land inside an activation). " +
+			"The fault position is sampled, not piloted. Non-trivial: two state-changing calls (activate/revoke) on one code overlapped (invoke/return stamps interleave), or a fault fired inside a call, or an activation was attempted on a code that was already used, revoked or expired. Distinct = distinct schedule hashes among those.",
 		Real:        []string{"internal/cloud/services/conncode Service (Create/Activate/Revoke)", "internal/cloud/repos ConnectionCodeRepository, PortMappingRepo, GenericRepository", "internal/cloud/services portMappingService + conncode facade adapter", "internal/core/idgen IDManager (SetNX id claims)", "internal/cloud/stats StatsCounter (1/3 of runs)", "internal/core/storage/memory or internal/core/storage/redis over go-redis + miniredis"},
 		Stub:        []string{"command handlers / sessions: harness tasks call the service methods with the authenticated client id, as the handlers do", "redis server: miniredis in the bubble over net.Pipe, TTL clock driven from the simulated clock", "storage latency/failure/crash: simstore handle per node"},
 		Assumptions: []string{"a mapping is attributed to a code by the code's target address (unique per code in the workload) and to a call by its listen address (unique per call)", "instants exactly on an expiry boundary are never generated (delays and stalls cannot sum to a TTL)", "a revoke and an activation that overlap may both succeed only if the mapping was already in the store when the revoke was acknowledged (the text does not define revoke-after-use)", "lost writes (acknowledged but not applied) and the tiered/hybrid backend are not generated", "after a crash only the count of mappings per code after a retry on a fresh node is judged"},
@@ -398,7 +405,7 @@ func init() {
 	})
 }
 
-var c06delays = []time.Duration{0, 0, 0, 0, 7 * time.Second, 31 * time.Second, 95 * time.Second, 11*time.Minute + 3*time.Second}
+var c06delays = []time.Duration{0, 0, 0, 0, 400 * time.Millisecond, 1700 * time.Millisecond, 7 * time.Second, 31 * time.Second, 95 * time.Second, 11*time.Minute + 3*time.Second}
 var c06stalls = []time.Duration{47 * time.Second, 101 * time.Second, 11 * time.Minute}
 
 func c06Run(w *simrt.World, tier string) {
@@ -455,8 +462,21 @@ func c06Run(w *simrt.World, tier string) {
 		cl.code = c.Intn(nCodes, "rev.code")
 		cl.client = r.codes[cl.code].target
 		cl.node = c.Intn(nNodes, "rev.node")
-		cl.delay = []time.Duration{0, 0, 7 * time.Second, 31 * time.Second}[c.Intn(4, "rev.delay")]
+		cl.delay = []time.Duration{0, 0, 7 * time.Second, 31 * time.Second, 200 * time.Millisecond, 1100 * time.Millisecond}[c.Intn(6, "rev.delay")]
 		r.calls = append(r.calls, cl)
+	}
+	// read-only lookups of a code through some node (0-2), at any time
+	nLook := []int{0, 0, 1, 2}[c.Intn(4, "nlookups")]
+	for i := 0; i < nLook; i++ {
+		cl := &c06call{name: fmt.Sprintf("L%d", i+1), kind: "lookup", valid: true}
+		cl.code = c.Intn(nCodes, "look.code")
+		cl.client = r.codes[cl.code].target
+		cl.node = c.Intn(nNodes, "look.node")
+		cl.delay = []time.Duration{0, 0, 300 * time.Millisecond, 1500 * time.Millisecond, 6 * time.Second, 30 * time.Second}[c.Intn(6, "look.delay")]
+		r.calls = append(r.calls, cl)
+	}
+	for _, cd := range r.codes {
+		cd.node = c.Intn(nNodes, "code.node")
 	}
 	r.fault = []string{"none", "none", "none", "error", "error", "crash", "crash", "stall"}[c.Intn(8, "fault")]
 	r.fNode = c.Intn(nNodes, "fault.node")
@@ -482,10 +502,10 @@ func c06Run(w *simrt.World, tier string) {
 		r.nodes = append(r.nodes, r.newNode(fmt.Sprintf("n%d", i+1)))
 	}
 
-	// ---- codes are generated fault-free on node 1, as the generate handler does
+	// ---- codes are generated fault-free through a drawn node, as the generate handler does
 	for _, cd := range r.codes {
 		t0 := w.Now()
-		cc, err := r.nodes[0].svc.CreateConnectionCode(&services.CreateConnectionCodeRequest{
+		cc, err := r.nodes[cd.node].svc.CreateConnectionCode(&services.CreateConnectionCodeRequest{
 			TargetClientID: cd.target, TargetAddress: cd.addr, ActivationTTL: cd.ttl, MappingDuration: cd.mapDur,
 			Description: fmt.Sprintf("code%d", cd.idx), CreatedBy: fmt.Sprintf("client-%d", cd.target),
 		})
@@ -495,7 +515,7 @@ func c06Run(w *simrt.World, tier string) {
 		}
 		cd.code, cd.id, cd.created = cc.Code, cc.ID, true
 		cd.expLo, cd.expHi = t0+cd.ttl, w.Now()+cd.ttl
-		r.logf("created code%d target=%d %s ttl=%v", cd.idx, cd.target, cd.addr, cd.ttl)
+		r.logf("created code%d on %s target=%d %s ttl=%v", cd.idx, r.nodes[cd.node].name, cd.target, cd.addr, cd.ttl)
 	}
 	if len(r.codes) == 2 && r.codes[0].code == r.codes[1].code {
 		w.Violationf("C06:duplicate-code", "two generated codes are equal")
@@ -596,7 +616,9 @@ func (r *c06run) judge(crashFired bool) {
 	for i, a := range r.calls {
 		for _, b := range r.calls[i+1:] {
 			if a.code == b.code && c06overlap(a, b) {
-				nontrivial = true
+				if a.kind != "lookup" && b.kind != "lookup" {
+					nontrivial = true
+				}
 				w.Probe("overlap." + a.kind + "-" + b.kind)
 			}
 		}
@@ -628,7 +650,7 @@ func (r *c06run) judge(crashFired bool) {
 			w.Probe("activate.after-expiry")
 		}
 		for _, o := range r.calls {
-			if o != cl && o.code == cl.code && o.ok() && o.ret < cl.inv {
+			if o != cl && o.kind != "lookup" && o.code == cl.code && o.ok() && o.ret < cl.inv {
 				nontrivial = true
 				w.Probe("activate.after-" + o.kind + "-ok")
 			}
@@ -691,18 +713,41 @@ func (r *c06run) judge(crashFired bool) {
 		}
 
 		// (1) at most one successful activation
+		//     two classes of failing history, kept apart so that one cannot hide the other:
+		//     the activations overlapped (a race), or the later one was invoked after the
+		//     earlier one had already returned success (a used code was accepted again)
 		flaggedDouble := false
 		if len(succ) >= 2 {
 			flaggedDouble = true
-			class := "overlapping"
+			var ov, sq [2]*c06call
 			for i, a := range succ {
 				for _, b := range succ[i+1:] {
-					if !c06overlap(a, b) {
-						class = "sequential"
+					switch {
+					case c06overlap(a, b):
+						if ov[0] == nil {
+							ov = [2]*c06call{a, b}
+						}
+					case sq[0] != nil:
+					case a.ret < b.inv:
+						sq = [2]*c06call{a, b}
+					default:
+						sq = [2]*c06call{b, a}
 					}
 				}
 			}
-			w.Violation("C06:double-activation:"+class, r.detail(fmt.Sprintf("code%d was activated successfully %d times (%s ...); %d mapping records originate from it", cd.idx, len(succ), succ[0].name+","+succ[1].name, len(mine))))
+			if ov[0] != nil {
+				w.Violation("C06:double-activation:overlapping", r.detail(fmt.Sprintf("code%d was activated successfully %d times (%s and %s overlapped); %d mapping records originate from it", cd.idx, len(succ), ov[0].name, ov[1].name, len(mine))))
+			}
+			if sq[0] != nil {
+				who, where := "other-client", "other-node"
+				if sq[0].client == sq[1].client {
+					who = "same-client"
+				}
+				if sq[0].node == sq[1].node {
+					where = "same-node"
+				}
+				w.Violation("C06:used-code-activated-again:"+who+":"+where, r.detail(fmt.Sprintf("code%d: %s returned success (stamp %d, %v) and %s, invoked afterwards (stamp %d, %v), succeeded too; %d mapping records originate from the code", cd.idx, sq[0].name, sq[0].ret, sq[0].tRet, sq[1].name, sq[1].inv, sq[1].tInv, len(mine))))
+			}
 		}
 
 		// (2) the mapping of a successful activation: exists, right target, listens for the activator
@@ -774,14 +819,18 @@ func (r *c06run) judge(crashFired bool) {
 				if owner != nil && owner.finished && owner.err != nil {
 					continue // reported under (3)
 				}
-				on, class := "?", "overlapping"
+				on, sig := "?", "C06:revoked-code-created-mapping:overlapping"
 				if owner != nil {
 					on = owner.name + "=" + owner.outcome()
 					if owner.started && owner.inv > rv.ret {
-						class = "sequential"
+						// not a race: the activation began after the revocation had been acknowledged
+						sig = "C06:revoked-code-activated-later:other-node"
+						if owner.node == rv.node {
+							sig = "C06:revoked-code-activated-later:same-node"
+						}
 					}
 				}
-				w.Violation("C06:revoked-code-created-mapping:"+class, r.detail(fmt.Sprintf("revocation of code%d was acknowledged (stamp %d, no mapping %s in the store then) and mapping %s appeared afterwards (%s)", cd.idx, rv.ret, id, id, on)))
+				w.Violation(sig, r.detail(fmt.Sprintf("revocation of code%d was acknowledged (stamp %d, no mapping %s in the store then) and mapping %s appeared afterwards (%s)", cd.idx, rv.ret, id, id, on)))
 			}
 		}
 
@@ -809,7 +858,7 @@ func (r *c06run) judge(crashFired bool) {
 				}
 				clean := true
 				for _, o := range r.calls {
-					if o == a || o.code != cd.idx {
+					if o == a || o.code != cd.idx || o.kind == "lookup" {
 						continue
 					}
 					if c06overlap(o, a) || !o.finished || (o.ok() && o.ret < a.inv) {
